@@ -99,4 +99,381 @@ theorem dn_is_neighbour {g : FlowGrid} (hg : WF g) (hcodes : g.codes.length = 9)
     · rw [h1] at h; omega
     · exact ⟨k, by omega, h1.symm⟩
 
+/-! ### downstream chains: `iterDn`, `endsAt`, `onPath`, `hitCount` -/
+
+theorem iterDn_succ' (g : FlowGrid) (k : Nat) (c : Int) : iterDn g (k + 1) c = dn g (iterDn g k c) := by
+  induction k generalizing c with
+  | zero => rfl
+  | succ k ih => rw [iterDn, ih]; rfl
+
+theorem iterDn_add (g : FlowGrid) (a b : Nat) (c : Int) : iterDn g (a + b) c = iterDn g a (iterDn g b c) := by
+  induction b generalizing c with
+  | zero => rfl
+  | succ b ih => rw [← Nat.add_assoc, iterDn, ih]; rfl
+
+theorem iterDn_neg {g : FlowGrid} {c : Int} (h : c < 0) (k : Nat) : iterDn g k c < 0 := by
+  induction k generalizing c with
+  | zero => exact h
+  | succ k ih => exact ih (dn_neg_of_neg h)
+
+theorem iterDn_neg_mono {g : FlowGrid} {c : Int} {k k' : Nat} (h : iterDn g k c < 0) (hk : k ≤ k') :
+    iterDn g k' c < 0 := by
+  obtain ⟨d, rfl⟩ := Nat.exists_eq_add_of_le hk
+  rw [Nat.add_comm, iterDn_add]
+  exact iterDn_neg h d
+
+theorem iterDn_nonneg_of_le {g : FlowGrid} {c : Int} {k k' : Nat} (h : 0 ≤ iterDn g k' c) (hk : k ≤ k') :
+    0 ≤ iterDn g k c := by
+  by_contra hn
+  have := iterDn_neg_mono (g := g) (c := c) (k := k) (k' := k') (by omega) hk
+  omega
+
+/-- a positive period forbids ever leaving the non-negative cells -/
+theorem iterDn_period {g : FlowGrid} {x : Int} {m : Nat} (h : iterDn g m x = x) (q : Nat) :
+    iterDn g (m * q) x = x := by
+  induction q with
+  | zero => rfl
+  | succ q ih => rw [Nat.mul_succ, iterDn_add, h, ih]
+
+theorem endsAt_dn_neg {g : FlowGrid} {f : Nat} {x t : Int} (h : endsAt g f x = some t) : dn g t < 0 := by
+  induction f generalizing x with
+  | zero => simp [endsAt] at h
+  | succ f ih =>
+    unfold endsAt at h
+    split at h
+    · rename_i hd
+      cases h; exact hd
+    · exact ih h
+
+theorem endsAt_eq_some_iff {g : FlowGrid} {f : Nat} {x t : Int} (hx : 0 ≤ x) :
+    endsAt g f x = some t ↔ ∃ k, k < f ∧ iterDn g k x = t ∧ 0 ≤ t ∧ dn g t < 0 := by
+  induction f generalizing x with
+  | zero => simp [endsAt]
+  | succ f ih =>
+    unfold endsAt
+    split
+    · rename_i hd
+      constructor
+      · intro h
+        cases h
+        exact ⟨0, Nat.succ_pos _, rfl, hx, hd⟩
+      · rintro ⟨k, _, hk, ht, _⟩
+        cases k with
+        | zero => rw [← hk]; rfl
+        | succ k =>
+          rw [iterDn] at hk
+          have := iterDn_neg (g := g) hd k
+          omega
+    · rename_i hd
+      rw [ih (by omega)]
+      constructor
+      · rintro ⟨k, hk, h1, h2, h3⟩
+        exact ⟨k + 1, by omega, h1, h2, h3⟩
+      · rintro ⟨k, hk, h1, h2, h3⟩
+        cases k with
+        | zero =>
+          rw [iterDn] at h1
+          subst h1
+          omega
+        | succ k => exact ⟨k, by omega, h1, h2, h3⟩
+
+theorem onPath_iff {g : FlowGrid} {f : Nat} {x j : Int} (hj : 0 ≤ j) :
+    onPath g f x j = true ↔ ∃ m, 1 ≤ m ∧ m ≤ f ∧ iterDn g m x = j := by
+  induction f generalizing x with
+  | zero =>
+    simp only [onPath, Bool.false_eq_true, false_iff]
+    rintro ⟨m, h1, h2, -⟩
+    omega
+  | succ f ih =>
+    unfold onPath
+    split
+    · rename_i hd
+      simp only [Bool.false_eq_true, false_iff]
+      rintro ⟨m, h1, h2, h3⟩
+      cases m with
+      | zero => omega
+      | succ m =>
+        rw [iterDn] at h3
+        have := iterDn_neg (g := g) hd m
+        omega
+    · rw [Bool.or_eq_true, decide_eq_true_eq, ih]
+      constructor
+      · rintro (h | ⟨m, h1, h2, h3⟩)
+        · exact ⟨1, Nat.le_refl _, by omega, h⟩
+        · exact ⟨m + 1, by omega, by omega, h3⟩
+      · rintro ⟨m, h1, h2, h3⟩
+        cases m with
+        | zero => omega
+        | succ m =>
+          cases m with
+          | zero => left; exact h3
+          | succ m => right; exact ⟨m + 1, by omega, by omega, h3⟩
+
+/-- a walk that reaches a terminal cell never comes back to its starting cell -/
+theorem onPath_self_false {g : FlowGrid} {f f' : Nat} {x : Int} (hx : 0 ≤ x)
+    (h : (endsAt g f x).isSome = true) : onPath g f' x x = false := by
+  rw [← Bool.not_eq_true, onPath_iff hx]
+  rintro ⟨m, h1, -, h3⟩
+  obtain ⟨t, ht⟩ := Option.isSome_iff_exists.1 h
+  obtain ⟨k, -, hk, -, hneg⟩ := (endsAt_eq_some_iff hx).1 ht
+  have h4 : iterDn g (k + 1) x < 0 := by rw [iterDn_succ', hk]; exact hneg
+  have h5 := iterDn_neg_mono (k' := m * (k + 1)) h4 (Nat.le_mul_of_pos_left _ h1)
+  rw [iterDn_period h3] at h5
+  omega
+
+theorem hitCount_eq {g : FlowGrid} {f : Nat} {x : Int} (j : Int) (hx : 0 ≤ x)
+    (h : (endsAt g f x).isSome = true) : hitCount g f x j = if onPath g f x j then 1 else 0 := by
+  induction f generalizing x with
+  | zero => rfl
+  | succ f ih =>
+    unfold endsAt at h
+    unfold hitCount onPath
+    split
+    · rfl
+    · rename_i hd
+      rw [if_neg hd] at h
+      rw [ih (by omega) h]
+      by_cases hdj : dn g x = j
+      · subst hdj
+        rw [onPath_self_false (by omega) h]
+        simp
+      · simp [hdj]
+
+/-- a terminal cell incremented by a walk that ends is the cell where that walk ends -/
+theorem endsAt_of_hit {g : FlowGrid} {f : Nat} {x t j : Int} (h : endsAt g f x = some t)
+    (hj : dn g j < 0) (hh : 0 < hitCount g f x j) : t = j := by
+  induction f generalizing x with
+  | zero => simp [endsAt] at h
+  | succ f ih =>
+    unfold endsAt at h
+    unfold hitCount at hh
+    split at hh
+    · omega
+    · rename_i hd
+      rw [if_neg hd] at h
+      by_cases hdj : dn g x = j
+      · rw [hdj] at h
+        cases f with
+        | zero => simp [endsAt] at h
+        | succ f =>
+          unfold endsAt at h
+          rw [if_pos hj] at h
+          cases h; rfl
+      · rw [if_neg hdj] at hh
+        exact ih h (by omega)
+
+/-- under termination, `onPath` does not depend on the cap: it is "some positive number of downstream steps" -/
+theorem onPath_iff_exists {g : FlowGrid} {f : Nat} {x j : Int} (hx : 0 ≤ x) (hj : 0 ≤ j)
+    (h : (endsAt g f x).isSome = true) : onPath g f x j = true ↔ ∃ m, 1 ≤ m ∧ iterDn g m x = j := by
+  rw [onPath_iff hj]
+  constructor
+  · rintro ⟨m, h1, -, h3⟩; exact ⟨m, h1, h3⟩
+  · rintro ⟨m, h1, h3⟩
+    refine ⟨m, h1, ?_, h3⟩
+    obtain ⟨t, ht⟩ := Option.isSome_iff_exists.1 h
+    obtain ⟨k, hkf, hk, -, hneg⟩ := (endsAt_eq_some_iff hx).1 ht
+    by_contra hm
+    have h4 : iterDn g (k + 1) x < 0 := by rw [iterDn_succ', hk]; exact hneg
+    have := iterDn_neg_mono (k' := m) h4 (by omega)
+    omega
+
+/-! ### the walk, pointwise -/
+
+section Walk
+variable {α : Type} [Add α]
+
+/-- the buffer `a` has `n` entries and holds the values `A j` -/
+def Rep (n : Nat) (a : Array α) (A : Nat → α) : Prop := a.size = n ∧ ∀ j, j < n → a[j]? = some (A j)
+
+omit [Add α] in
+theorem Rep.congr {n : Nat} {a : Array α} {A B : Nat → α} (h : Rep n a A) (hAB : ∀ j, j < n → A j = B j) :
+    Rep n a B := ⟨h.1, fun j hj => by rw [h.2 j hj, hAB j hj]⟩
+
+omit [Add α] in
+theorem Rep.unique {n : Nat} {a : Array α} {A B : Nat → α} (h : Rep n a A) (h' : Rep n a B) {j : Nat}
+    (hj : j < n) : A j = B j := by
+  have := h.2 j hj
+  rw [h'.2 j hj] at this
+  exact (Option.some.inj this).symm
+
+omit [Add α] in
+theorem rep_self (a : Array α) (d : α) : Rep a.size a (fun j => a[j]?.getD d) :=
+  ⟨rfl, fun j hj => by simp [hj]⟩
+
+/-- effect of one walk on the accumulation values: the cell where the walk ends takes the no-data value,
+every other cell receives `v` once per visit -/
+def walkFn (g : FlowGrid) (nodata v : α) (fuel : Nat) (cur : Int) (A : Nat → α) : Nat → α :=
+  fun j => if endsAt g fuel cur = some (j : Int) then nodata else addN (hitCount g fuel cur (j : Int)) v (A j)
+
+theorem toNat_eq_iff {c : Int} (hc : 0 ≤ c) (j : Nat) : c.toNat = j ↔ c = (j : Int) := by omega
+
+theorem walk_spec {g : FlowGrid} (hg : WF g) {field : Array α} {nodata v : α} {src : Nat}
+    (hsrc : field[src]? = some v) (fuel : Nat) {cur : Int} (hv : validCell g.nrows g.ncols cur = true)
+    {acc : Array α} {A : Nat → α} (hA : Rep g.ntot.toNat acc A) :
+    ∃ acc', walk g field nodata src fuel cur acc = .ok acc' ∧
+      Rep g.ntot.toNat acc' (walkFn g nodata v fuel cur A) := by
+  induction fuel generalizing cur acc A with
+  | zero =>
+    refine ⟨acc, rfl, hA.congr fun j _ => ?_⟩
+    simp [walkFn, endsAt, hitCount, addN]
+  | succ fuel ih =>
+    have hcur := validCell_iff.1 hv
+    unfold walk
+    rw [downstream_ok hg hv]
+    simp only []
+    by_cases hd : dn g cur < 0
+    · rw [if_pos hd]
+      have hlt : cur.toNat < acc.size := by rw [hA.1]; unfold FlowGrid.ntot; omega
+      unfold writeAt
+      rw [dif_pos ⟨hcur.1, hlt⟩]
+      refine ⟨_, rfl, ?_, ?_⟩
+      · rw [Array.size_set]; exact hA.1
+      · intro j hj
+        rw [Array.getElem?_set, hA.2 j hj]
+        unfold walkFn endsAt hitCount
+        rw [if_pos hd, if_pos hd]
+        by_cases hcj : cur.toNat = j
+        · rw [if_pos hcj, if_pos (by rw [(toNat_eq_iff hcur.1 j).1 hcj])]
+        · rw [if_neg hcj, if_neg (by intro h; exact hcj ((toNat_eq_iff hcur.1 j).2 (Option.some.inj h)))]
+          rfl
+    · rw [if_neg hd, hsrc]
+      simp only []
+      have hdv := dn_nonneg_valid hg hv (by omega)
+      have hdr := validCell_iff.1 hdv
+      have hlt : (dn g cur).toNat < acc.size := by rw [hA.1]; unfold FlowGrid.ntot; omega
+      unfold addAt
+      rw [dif_pos ⟨hdr.1, hlt⟩]
+      simp only []
+      have hA1 : Rep g.ntot.toNat (acc.set (dn g cur).toNat (acc[(dn g cur).toNat] + v) hlt)
+          (fun j => if (dn g cur).toNat = j then A j + v else A j) := by
+        refine ⟨by rw [Array.size_set]; exact hA.1, fun j hj => ?_⟩
+        rw [Array.getElem?_set, hA.2 j hj]
+        beta_reduce
+        by_cases hcj : (dn g cur).toNat = j
+        · rw [if_pos hcj, if_pos hcj]
+          subst hcj
+          have := hA.2 _ hj
+          rw [Array.getElem?_eq_getElem hlt] at this
+          rw [Option.some.inj this]
+        · rw [if_neg hcj, if_neg hcj]
+      obtain ⟨acc', h1, h2⟩ := ih hdv hA1
+      refine ⟨acc', h1, h2.congr fun j _ => ?_⟩
+      unfold walkFn
+      conv => rhs; unfold endsAt hitCount
+      rw [if_neg hd, if_neg hd]
+      split
+      · rfl
+      · beta_reduce
+        by_cases hcj : (dn g cur).toNat = j
+        · rw [if_pos hcj, if_pos ((toNat_eq_iff hdr.1 j).1 hcj), Nat.add_comm]
+          rfl
+        · rw [if_neg hcj, if_neg (fun h => hcj ((toNat_eq_iff hdr.1 j).2 h)), Nat.zero_add]
+
+/-! ### the outer loop -/
+
+/-- values after the walks from the source cells in `l`, in that order -/
+def loopFn (g : FlowGrid) (nodata : α) (F : Nat → α) (fuel : Nat) : List Nat → (Nat → α) → (Nat → α)
+  | [], A => A
+  | i :: rest, A => loopFn g nodata F fuel rest (walkFn g nodata (F i) fuel (i : Int) A)
+
+theorem loopFn_append (g : FlowGrid) (nodata : α) (F : Nat → α) (fuel : Nat) (l l' : List Nat) (A : Nat → α) :
+    loopFn g nodata F fuel (l ++ l') A = loopFn g nodata F fuel l' (loopFn g nodata F fuel l A) := by
+  induction l generalizing A with
+  | nil => rfl
+  | cons i rest ih => exact ih _
+
+theorem valid_of_lt {g : FlowGrid} {i : Nat} (hi : i < g.ntot.toNat) :
+    validCell g.nrows g.ncols (i : Int) = true := by
+  rw [validCell_iff]
+  unfold FlowGrid.ntot at hi
+  omega
+
+theorem lt_of_valid {g : FlowGrid} {c : Int} (hv : validCell g.nrows g.ncols c = true) :
+    c.toNat < g.ntot.toNat ∧ ((c.toNat : Nat) : Int) = c := by
+  rw [validCell_iff] at hv
+  unfold FlowGrid.ntot
+  omega
+
+theorem accLoop_spec {g : FlowGrid} (hg : WF g) {field : Array α} {nodata : α} {F : Nat → α}
+    (hF : Rep g.ntot.toNat field F) (fuel : Nat) (l : List Nat) (hl : ∀ i ∈ l, i < g.ntot.toNat)
+    {acc : Array α} {A : Nat → α} (hA : Rep g.ntot.toNat acc A) :
+    ∃ acc', accLoop g field nodata fuel l acc = .ok acc' ∧
+      Rep g.ntot.toNat acc' (loopFn g nodata F fuel l A) := by
+  induction l generalizing acc A with
+  | nil => exact ⟨acc, rfl, hA⟩
+  | cons i rest ih =>
+    have hi := hl i (List.mem_cons_self)
+    obtain ⟨acc1, h1, h2⟩ := walk_spec hg (nodata := nodata) (hF.2 i hi) fuel (valid_of_lt hi) hA
+    obtain ⟨acc2, h3, h4⟩ := ih (fun k hk => hl k (List.mem_cons_of_mem _ hk)) h2
+    refine ⟨acc2, ?_, h4⟩
+    unfold accLoop
+    rw [h1]
+    exact h3
+
+/-- `c_accumulate` on well-shaped buffers: never an error once the two guards pass, whatever the flow
+directions (cycles included) and the cap; the result is `loopFn` over the cells in increasing order -/
+theorem cAccumulate_spec {g : FlowGrid} (hg : WF g) {m : Int} (hm : 1 ≤ m) (hr : 1 ≤ g.nrows)
+    {field acc0 : Array α} {nodata : α} {F A0 : Nat → α}
+    (hF : Rep g.ntot.toNat field F) (hA : Rep g.ntot.toNat acc0 A0) :
+    ∃ acc, cAccumulate g m nodata field acc0 = .ok acc ∧
+      Rep g.ntot.toNat acc (loopFn g nodata F (fuelOf m) (List.range g.ntot.toNat) A0) := by
+  unfold cAccumulate
+  rw [if_neg (by omega), if_neg (by omega)]
+  exact accLoop_spec hg hF _ _ (fun i hi => List.mem_range.1 hi) hA
+
+/-! ### the loop invariant when every walk ends at a terminal cell before the cap -/
+
+/-- contribution of the sources `l` to the cell `c`, added in the order of `l` -/
+def pathFold (g : FlowGrid) (F : Nat → α) (fuel : Nat) (c : Int) (l : List Nat) (a : α) : α :=
+  l.foldl (fun s (i : Nat) => if onPath g fuel (i : Int) c then s + F i else s) a
+
+theorem loopFn_range_spec {g : FlowGrid} {fuel : Nat} (hT : AllTerminate g fuel)
+    (nodata : α) (F A0 : Nat → α) (j : Nat) (m : Nat) (hm : m ≤ g.ntot.toNat) :
+    (0 ≤ dn g (j : Int) →
+      loopFn g nodata F fuel (List.range m) A0 j = pathFold g F fuel (j : Int) (List.range m) (A0 j)) ∧
+    (dn g (j : Int) < 0 → j < m → loopFn g nodata F fuel (List.range m) A0 j = nodata) := by
+  induction m with
+  | zero =>
+    refine ⟨fun _ => rfl, fun _ h => ?_⟩
+    omega
+  | succ m ih =>
+    have ihm := ih (by omega)
+    have hmv : validCell g.nrows g.ncols (m : Int) = true := valid_of_lt (by omega)
+    have hTm := hT _ hmv
+    have hm0 : (0 : Int) ≤ (m : Int) := by omega
+    rw [List.range_succ, loopFn_append]
+    refine ⟨fun hd => ?_, fun hd hjm => ?_⟩
+    · show walkFn g nodata (F m) fuel (m : Int) _ j = _
+      unfold walkFn pathFold
+      rw [List.foldl_append, if_neg (fun h => by have := endsAt_dn_neg h; omega),
+        hitCount_eq _ hm0 hTm, ihm.1 hd]
+      simp only [List.foldl_cons, List.foldl_nil]
+      unfold pathFold
+      split <;> rfl
+    · show walkFn g nodata (F m) fuel (m : Int) _ j = _
+      unfold walkFn
+      split
+      · rfl
+      · rename_i hne
+        obtain ⟨t, ht⟩ := Option.isSome_iff_exists.1 hTm
+        have hzero : hitCount g fuel (m : Int) (j : Int) = 0 := by
+          by_contra hpos
+          have := endsAt_of_hit ht hd (by omega)
+          rw [ht, this] at hne
+          exact hne rfl
+        have hjm' : j < m := by
+          rcases Nat.lt_or_ge j m with h | h
+          · exact h
+          · exfalso
+            have hjeq : j = m := by omega
+            subst hjeq
+            apply hne
+            cases fuel with
+            | zero => simp [endsAt] at hTm
+            | succ fuel => unfold endsAt; rw [if_pos hd]
+        rw [hzero, ihm.2 hd hjm']
+        rfl
+
+end Walk
+
 end HydroVerif.C11
